@@ -135,11 +135,17 @@ PLAN["C17"] = other(
     "Interval-driven extraction keeps and drops exactly the marked samples on the stated bounded domain.",
     ["c17_extraction"])
 PLAN["C18"] = other(
-    "Deductive: utils.sign, getInterval (clamped to [0,max]) and chooseClosestTime proved against their specs for all "
-    "inputs; the index computation shared with C16. Bounded: findNearestZeroCrossing (with a per-call watchdog for "
-    "termination), tgBoundariesToZeroCrossings, audioSplice.",
-    "Zero-crossing search helpers are proved; termination, range, genuineness of crossings and splicing are checked on "
-    "the stated bounded domain.", ["c18_zero_crossing"], "; the termination variant of DESIGN 4/C18 is not built")
+    "Deductive: the search inside one block of samples - _getNearestZero, _getZeroThresholdCrossing and "
+    "_findNextZeroCrossing (both directions) - is proved equal to the spec from the property for sample blocks of any "
+    "length: the first (last) exact zero, else the first (last) adjacent pair that differs in sign, of which the "
+    "sample nearer to zero; the reported position is a genuine crossing (zero, or differs in sign from a neighbour), "
+    "lies inside the block, and None is returned iff the block has neither. utils.sign, getInterval (clamped to "
+    "[0,max]) and chooseClosestTime are proved against their specs; the index computation is shared with C16. "
+    "Bounded: the outer search loop of findNearestZeroCrossing (with a per-call watchdog for termination), "
+    "tgBoundariesToZeroCrossings, audioSplice.",
+    "Zero-crossing detection inside a block and the helpers around it are proved for all inputs; termination and "
+    "range of the outer search, and splicing, are checked on the stated bounded domain.", ["c18_zero_crossing"],
+    "; the termination variant of DESIGN 4/C18 is not built")
 PLAN["C19"] = other(
     "Bounded: KlattGrid open/save/open (reference file and synthetic grids, 15 modification functions with an "
     "exactly-once counting wrapper) and point objects (all point lists <= 4 over the number set, 3 classes, long and "
@@ -350,6 +356,12 @@ CANARIES = [
      "old": "if interval.start < interval.end", "new": "if interval.start <= interval.end"},
     {"name": "values-in-interval", "props": ["C15"], "file": U, "target": "praatio.utilities.utils.getValuesInInterval",
      "old": "if start <= time and end >= time:", "new": "if start <= time and end > time:"},
+    {"name": "crossing-nearer-sample", "props": ["C18"], "file": "praatio/audio.py",
+     "target": "praatio.audio._getZeroThresholdCrossing",
+     "old": "if abs(samples[zeroI]) > abs(samples[zeroI + 1])", "new": "if abs(samples[zeroI]) >= abs(samples[zeroI + 1])"},
+    {"name": "find-reverse-off-by-one", "props": ["C18"], "file": U, "target": "praatio.audio._getNearestZero",
+     "old": "index = len(list) - list[::-1].index(value) - 1", "new": "index = len(list) - list[::-1].index(value)",
+     "config": ["reverse=True"]},
     {"name": "getinterval-clamp", "props": ["C18"], "file": U, "target": "praatio.utilities.utils.getInterval",
      "old": "    elif endTime > max:\n        endTime = max", "new": "    elif endTime > max:\n        endTime = endTime",
      "config": ["reverse=False"]},
